@@ -86,9 +86,10 @@ theorem mono_stmt (W : World Ω) : ∀ f,
     (∀ k v ad off n i b st r, loopRange W f k v ad off n i b st = some r → loopRange W (f + 1) k v ad off n i b st = some r) ∧
     (∀ k v l i b st r, loopAnys W f k v l i b st = some r → loopAnys W (f + 1) k v l i b st = some r) ∧
     (∀ cs st r, evalGuards W f cs st = some r → evalGuards W (f + 1) cs st = some r) ∧
-    (∀ bind v cs st r, switchCases W f bind v cs st = some r → switchCases W (f + 1) bind v cs st = some r)
+    (∀ bind v cs st r, switchCases W f bind v cs st = some r → switchCases W (f + 1) bind v cs st = some r) ∧
+    (∀ k v l b st r, loopPairs W f k v l b st = some r → loopPairs W (f + 1) k v l b st = some r)
   | 0 => by
-    refine ⟨?_, ?_, ?_, ?_, ?_, ?_, ?_⟩ <;> intros <;> rename_i h
+    refine ⟨?_, ?_, ?_, ?_, ?_, ?_, ?_, ?_⟩ <;> intros <;> rename_i h
     · simp [execStmt] at h
     · simp [execBlock] at h
     · simp [loopFor] at h
@@ -96,13 +97,14 @@ theorem mono_stmt (W : World Ω) : ∀ f,
     · simp [loopAnys] at h
     · simp [evalGuards] at h
     · simp [switchCases] at h
+    · simp [loopPairs] at h
   | f + 1 => by
-    obtain ⟨ihS, ihB, ihF, ihR, ihA, ihG, ihC⟩ := mono_stmt W f
+    obtain ⟨ihS, ihB, ihF, ihR, ihA, ihG, ihC, ihP⟩ := mono_stmt W f
     have hE := @mono_evalExpr Ω W f
     have hAr := @mono_evalArgs Ω W f
     have hRhs := @mono_evalRhs Ω W f
     have hAll := @mono_assignAll Ω W f
-    refine ⟨?_, ?_, ?_, ?_, ?_, ?_, ?_⟩
+    refine ⟨?_, ?_, ?_, ?_, ?_, ?_, ?_, ?_⟩
     · intro s st r h
       cases s <;> rw [execStmt.eq_def] at h ⊢ <;> simp only at h ⊢ <;> grind (splits := 20) -funext [Option.map_eq_some_iff]
     · intro b st r h
@@ -117,6 +119,8 @@ theorem mono_stmt (W : World Ω) : ∀ f,
       rw [evalGuards.eq_def] at h ⊢; simp only at h ⊢; grind (splits := 20) -funext [Option.map_eq_some_iff]
     · intro bind v cs st r h
       rw [switchCases.eq_def] at h ⊢; simp only at h ⊢; grind (splits := 20) -funext [Option.map_eq_some_iff]
+    · intro k v l b st r h
+      rw [loopPairs.eq_def] at h ⊢; simp only at h ⊢; grind (splits := 20) -funext [Option.map_eq_some_iff]
 
 theorem mono_execBlock (W : World Ω) {f g : Nat} (hfg : f ≤ g) {b st r} (h : execBlock W f b st = some r) :
     execBlock W g b st = some r := by
